@@ -498,6 +498,23 @@ def trm : P String := do
   let v := v.failIf (ft != 0) s!"{cn} simulates_past_terminal_state {ft} of {n} calls were made on a terminal state reached in the same simulation"
   return v.render
 
+/-- `lib n (log(k+1), 0.7*sqrt(log(k+1)/(1+k%7)), p*log p with p=(1+k%5)/(k+5))*`: the driver's double arithmetic
+    (`Float.log`, `Float.sqrt`) reproduces the implementation's bit for bit -/
+def lib : P String := do
+  let n ← P.nat
+  let rows ← P.rep (do let a ← P.x; let b ← P.x; let c ← P.x; pure (a, b, c)) n
+  P.eof
+  let bad := (List.range n).filter (fun i =>
+    let k := i + 1
+    let (a, b, c) := rows.getD i (.nan, .nan, .nan)
+    let lg := Float.log (k.toFloat + 1.0)
+    let bon := bonusF (ratToFloat (7 / 10 : Rat)) k (1 + k % 7)
+    let pl := plogpF (1 + k % 5) (k + 5)
+    !(floatToX lg == a && bon == b && XRat.fin pl == c))
+  let v : Verdict := { tag := "lib" }
+  let v := v.diffIf (!bad.isEmpty) s!"libm double arithmetic of the driver differs from the implementation's at samples {bad.take 5}"
+  return v.render
+
 def handle (toks : List String) : String :=
   let r := match toks with
     | "run" :: rest => P.run run rest
@@ -507,6 +524,7 @@ def handle (toks : List String) : String :=
     | "rrun" :: rest => P.run rrun rest
     | "rcnt" :: rest => P.run rcnt rest
     | "trm" :: rest => P.run trm rest
+    | "lib" :: rest => P.run lib rest
     | _ => none
   r.getD "bad-op"
 
